@@ -57,7 +57,7 @@ TABLES = ["UBX_PAYLOADS_GET", "UBX_PAYLOADS_SET", "UBX_PAYLOADS_POLL", "UBX_MSGI
 
 def floors(tier):
     return {"setattr": 1200, "delattr": 1200, "name=existing": 800, "name=private": 500, "name=new": 300,
-            "name=property": 300, "silence-op": 1500, "history": 100, "history:nontrivial": 30,
+            "name=property": 300, "silence-op": 1500, "history": 100, "history:nontrivial": 30, "history:per-definition": 2000,
             "threads": 10, "coldstart": 40}
 
 
@@ -67,6 +67,8 @@ def plan(tier, seed):
     specs = [{"what": "immut", "targets": p} for p in C.split_round_robin(idx, 8)]
     specs += [{"what": "silence", "targets": p} for p in C.split_round_robin(idx, 6)]
     specs += [{"what": "history", "part": i} for i in range(6)]
+    # every definition in turn as the history (not left to the draw of the random histories)
+    specs += [{"what": "per-target", "targets": p} for p in C.split_round_robin(idx, 8)]
     specs += [{"what": "threads", "part": i} for i in range(2)]
     specs.append({"what": "race", "suites": ["mixed", "reader"]})
     if tier == "thorough":
@@ -526,12 +528,15 @@ def check(case) -> core.Out:
                                  f"{pre_r[idx][:80]!r} but {str(want_r[idx])[:80]!r} when run alone in a fresh process"))
                 out.replay_case = {"kind": "history", "ops": log, "replay_log": True}
                 return out
-        before = table_digests()
+        # (light: the constants of every module and the probes after each history, the full
+        #  digest of the tables for one history in sixteen)
+        digests = constants_digests if case.get("light") and out.dig % 16 else table_digests
+        before = digests()
         results = [run_op(op) for op in ops]
         _OPLOG.extend(ops)
         del _OPLOG[:-600]
         got_d, got_r = probe_digest()
-        after = table_digests()
+        after = digests()
         failing = any(r.startswith("exc:") for r in results)
         variant = any(op[0] in ("parse", "build-kw", "build-payload") and bytes(op[1])[-8:-6] != b"" for op in ops)
         out.nontrivial = failing and len(ops) >= 2
@@ -762,6 +767,17 @@ def run_shard(spec, ctx, acc):
             strat = st.lists(op_for_target(t), min_size=3, max_size=6).map(lambda ops: {"kind": "silence", "ops": ops})
             core.hyp_search(acc, strat, check, seed=core.derive(ctx["seed"], PROP, "s", t.label),
                             max_examples=2 if quick else 12, known=known, rounds=1, shrink=False)
+        return
+    if what == "per-target":
+        isolated_baseline()  # before any operation runs in this process
+        for ti in spec["targets"]:
+            t = targets[ti]
+            strat = st.lists(op_for_target(t, kinds=("parse", "parse", "build-payload", "build-kw")), min_size=2,
+                             max_size=4).map(lambda ops: {"kind": "history", "ops": ops, "light": True})
+            before = acc.evaluations
+            core.hyp_search(acc, strat, check, seed=core.derive(ctx["seed"], PROP, "pt", t.label),
+                            max_examples=5 if quick else 60, known=known, rounds=1)
+            acc.classes["history:per-definition"] += acc.evaluations - before
         return
     if what == "history":
         isolated_baseline()  # before any operation runs in this process
